@@ -226,13 +226,10 @@ def idsOK (owner : Array Slot) (ids : Array Nat) (mk : Nat → Slot) : Bool :=
     | some k => owner[k]? == some (mk j)
     | none => false
 
-/-- the name fits the 64-byte field (at most 31 UTF-16 units and a terminator), is not empty, has no NUL,
-    and does not start with something `encoding_rs` takes for a byte-order mark -/
+/-- the name fits the 64-byte field (at most 31 UTF-16 units and a terminator), is not empty and has no NUL -/
 def nameEncOK (name : List Char) : Bool :=
   let u := utf16Units name
-  0 < u.length && u.length ≤ 31 && !(name.contains (Char.ofNat 0)) &&
-    u.head? != some 0xFEFF && u.head? != some 0xFFFE &&
-    !(u.head? == some 0xBBEF && (u.getD 1 0) % 256 == 0xBF)
+  0 < u.length && u.length ≤ 31 && !(name.contains (Char.ofNat 0))
 
 def nameOK (name : List Char) : Bool := nameEncOK name && name != rootName
 
